@@ -314,6 +314,8 @@ def prop_C01(ctx, tier):
     n2, anchors = K.check_store_overwrites(run, ctx, 'C01-P2')
     run.require('C01-P2', 'store entry points', len([a for a in anchors.values() if a]), 6)
     K.check_lookup_by_key(run, ctx)
+    if tier == 'thorough':
+        W.check_repo_wrappers(run, ctx, ('C01',))
     W.check_wrapper_config(run, ctx, rules=('C14',))
     run.violations = [v for v in run.violations if not v['rule'].startswith('C14') or 'belongs to' in v['what']]
     for v in run.violations:
@@ -331,6 +333,8 @@ def prop_C02(ctx, tier):
               'T2: impl table (informational). Trusted, not checked: injectivity of std Debug.', ASSUME_COMMON)
     n = W.check_key_builder(run, ctx)
     run.require('C02-W1', 'fixture wrappers', n, 300)
+    if tier == 'thorough':
+        W.check_repo_wrappers(run, ctx, ('C02',))
     S.check_key_traits(run, ctx)
     return run
 
@@ -344,6 +348,9 @@ def prop_C03(ctx, tier):
               'Not decided: the concurrent-miss clause.', ASSUME_COMMON)
     n, fams = W.check_wrapper_flow(run, ctx, rules=('C03',))
     run.require('C03-W1', 'scenario outcomes', n, 600)
+    if tier == 'thorough':
+        nw = W.check_repo_wrappers(run, ctx, ('C03',))
+        run.require('C03-W1', 'repository-own decorated functions', nw, 200)
     K.check_lookup_removes_nothing_unbounded(run, ctx)
     n2, a2 = K.check_store_unbounded(run, ctx)
     run.require('C03-E1', 'unbounded store specialisations', n2, 36)
@@ -370,6 +377,8 @@ def prop_C10(ctx, tier):
               'exactly when it returns true; for sync Result functions the guarded store is the Ok-only one. Scenario table over found x keep (x stale).', ASSUME_COMMON)
     n, fams = W.check_wrapper_flow(run, ctx, rules=('C10',))
     run.require('C10-W1', 'cache_if fixtures', fams.get('P', 0), 40)
+    if tier == 'thorough':
+        W.check_repo_wrappers(run, ctx, ('C10',))
     W.check_wrapper_dataflow(run, ctx, 'C10-W1')
     run.violations = [v for v in run.violations if 'cache_if' in v['what'] or v['rule'] != 'C10-W1' or 'predicate' in v['key'] or 'result-with' in v['key']]
     return run
@@ -383,6 +392,8 @@ def prop_C11(ctx, tier):
               'when it says true the body runs and the result is stored. P1: the store overwrites the existing key in all three flavours (every store path inserts).', ASSUME_COMMON)
     n, fams = W.check_wrapper_flow(run, ctx, rules=('C11',))
     run.require('C11-W1', 'invalidate_on fixtures', fams.get('I', 0), 20)
+    if tier == 'thorough':
+        W.check_repo_wrappers(run, ctx, ('C11',))
     W.check_wrapper_dataflow(run, ctx, 'C11-W1')
     run.violations = [v for v in run.violations if 'invalidate_on' in v['what'] or 'check' in v['key'] or 'stale' in v['key'] or 'fresh' in v['key'] or 'refresh' in v['key']]
     K.check_store_overwrites(run, ctx, 'C11-P1')
